@@ -161,14 +161,14 @@ PROPS = {
                  'T8 rely: at every lock acquisition the store may have become ANY store satisfying the invariant (other threads keep the invariant); guarantee: this thread keeps it (lemmas of unit ptlookup)'],
     ),
     'C04': dict(
-        vx_units=['iobuffers', 'fusedevw', 'asyncdevw', 'virtiofsw', 'virtiofsw_async', 'writerenum', 'readerrd', 'filebuf', 'zcstreams', 'transrest'], kx=['file_buf'],
+        vx_units=['iobuffers', 'fusedevw', 'asyncdevw', 'virtiofsw', 'virtiofsw_async', 'writerenum', 'readerrd', 'filebuf', 'zcstreams', 'transrest', 'asyncfile'], kx=['file_buf'],
         design_ref='DESIGN.md A.4',
         not_covered=[
             'IoBuffers::available_bytes (iterator fold): assumed contract (returns the number of addresses still covered when that fits in usize)',
             'virtio-queue / vm-memory themselves: DescriptorChain::{readable, writable} and their iterators, GuestMemory::find_region, GuestMemoryRegion::get_slice are models written from the texts of virtio-queue 0.17.0 / vm-memory 0.17.1 (indirect tables, the 2^32 cap of a chain are theirs); guest memory is a snapshot during one operation (a guest modifying a request buffer while it is read is not modelled); std read_exact / write_all are verified hand copies of the std text',
             'contents of the bytes a file transfer appends (that the file fills exactly what it reports is assumed); FuseDevWriter::write_all_from on an UNBUFFERED writer (stated as a precondition: a second round trips the writer\'s own assert - public-API observation F1, not reachable through the server); slice totals >= 2^64 in write_vectored',
             'file transfers above the transports (unit zcstreams): the provided methods of ZeroCopyReader / ZeroCopyWriter (read_exact_to, write_all_from, copy_to_end) are proved to issue a CHAIN of transfer calls whose (count, offset) follow what the calls before reported, the Zc* adapters of the server to forward one call unchanged, the overlay File adapters to relay in order within their buffer and to leave the source positioned behind exactly what the sink accepted (D29); NOT covered: termination of the retry loops, the transports\' own Ok(0) => WriteZero rule, byte contents beyond the address log',
-            'file-buffer adapters: FileVolatileSlice / FileVolatileBuf and `impl FileReadWriteVolatile for File` (the volatile_impl! instance, its default loops, the &mut T / Arc<T> forwarders, the async vectored functions) are proved for all lengths in unit filebuf against a model of vm-memory 0.17.1 VolatileSlice / Bytes written from its text; the Kani group kx:file_buf (lengths 0..4) remains as a bounded check that vm-memory\'s real code behaves like that model; NOT covered: slice lists longer than i32::MAX, the default vectored trait bodies (File overrides them), termination of the Interrupted-retry loops, async_file.rs itself (a model); API-level preconditions of the async vectored functions (buffers empty for a read / full for a write: observation F4)',
+            'file-buffer adapters: FileVolatileSlice / FileVolatileBuf and `impl FileReadWriteVolatile for File` (the volatile_impl! instance, its default loops, the &mut T / Arc<T> forwarders, the async vectored functions) are proved for all lengths in unit filebuf against a model of vm-memory 0.17.1 VolatileSlice / Bytes written from its text; the Kani group kx:file_buf (lengths 0..4) remains as a bounded check that vm-memory\'s real code behaves like that model; NOT covered: slice lists longer than i32::MAX, the default vectored trait bodies (File overrides them), termination of the Interrupted-retry loops; async_file.rs is no longer only a model: unit asyncfile verifies its real text (preadv / pwritev loops, the four transfer functions per runtime variant, descriptor ownership of metadata / try_clone / from_std_file) against the clauses filebuf assumes, modulo EINTR retries and offsets <= i64::MAX, over a model of tokio-uring 0.4.0 written from its source; API-level preconditions of the async vectored functions (buffers empty for a read / full for a write: observation F4)',
         ],
         trusted=['T3 vm_memory::VolatileSlice as (address, length) with offset() / subslice() as documented, ranges do not wrap the address space; VecDeque via vstd',
                  'T5 nix write/writev as opaque device writes guarded by a capability',
@@ -193,7 +193,7 @@ PROPS = {
                  'rule R23: the ghost dirty-log parameter threaded through the real functions is erased by Verus (no run-time meaning); ABSTRACT of copy_nonoverlapping by vx_copy_to_guest'],
     ),
     'C15': dict(
-        vx_units=['handles', 'fhandle', 'ptcore'], kx=[], rx=['pt'],
+        vx_units=['handles', 'fhandle', 'ptcore', 'asyncfile'], kx=[], rx=['pt'],
         design_ref='DESIGN.md A.4',
         not_covered=[
             'descriptor accounting of the handle table itself (when a File / Arc<HandleData> is dropped and closed): Arc drop and raw fds of HandleData are outside the model; for file handles and mount descriptors it IS modelled (unit fhandle: a ghost set of open descriptors, explicit scope-exit drops of File values, the drop glue of Arc<MountFd> spelled out) under the assumptions listed there - Weak::upgrade succeeds iff a strong reference exists, one MountFds table, one interfering get() for the same mount id; get_mount_root (mountinfo parsing) is contract-only',
@@ -242,7 +242,7 @@ PROPS = {
                  'cargo feature `persist` switched on for these units only; rules R33 (iter().map().collect() as an index loop) and R34 (`if C { continue; } REST` as if/else)'],
     ),
     'C20': dict(
-        vx_units=['asyncsrv', 'asyncdevw', 'asyncarcfs', 'asyncvfs', 'server', 'arcfs', 'vfs', 'writerenum', 'virtiofsw_async', 'asyncpt', 'zcstreams', 'transrest'], kx=[],
+        vx_units=['asyncsrv', 'asyncdevw', 'asyncarcfs', 'asyncvfs', 'server', 'arcfs', 'vfs', 'writerenum', 'virtiofsw_async', 'asyncpt', 'zcstreams', 'transrest', 'asyncfile'], kx=[],
         # the async entry points of VirtioFsWriter are verified in unit virtiofsw_async against the clauses of their sync twins (same cursor movement, same marking, same refusals)
         alias=[r'^C04\.async_', r'^C17\.async_', r'^virtiofsw_async\.'],
         design_ref='DESIGN.md A.4',
